@@ -174,7 +174,7 @@ def make_apps(mapping, ep, wrapped):
     def other(environ, start_response):
         hits['wrapped'] += 1
         start_response('200 OK', [('Content-Type', 'text/plain')])
-        return [b'WRAPPED']
+        return iter([b'WRAP', b'PED'])       # a one-shot iterable, as frameworks return
 
     async def aother(scope, receive, send):
         hits['wrapped'] += 1
@@ -252,13 +252,19 @@ def _brief(o):
 
 def run_wsgi(path, mapping, ep, wrapped):
     import engineio
+    import logging
+    lg = logging.getLogger('engineio.server')       # diagnostics on: whatever the gateway logs at INFO is computed
+    if lg.level != logging.INFO:
+        lg.setLevel(logging.INFO)
+        lg.addHandler(logging.NullHandler())
+        lg.propagate = False
     eng = EngineStub()
     hits = {'wrapped': 0}
 
     def other(environ, start_response):
         hits['wrapped'] += 1
         start_response('200 OK', [('Content-Type', 'text/plain')])
-        return [b'WRAPPED']
+        return iter([b'WRAP', b'PED'])       # a one-shot iterable, as frameworks return
     app = engineio.WSGIApp(eng, other if wrapped else None, static_files=mapping, engineio_path=ep)
     calls = []
 
@@ -311,6 +317,8 @@ def _classify(eng_hits, wrapped_hits, status, ctype, body):
     if eng_hits and not wrapped_hits:
         return {'who': 'engine'}
     if wrapped_hits and not eng_hits:
+        if status != 200 or body != b'WRAPPED':
+            return {'who': 'malformed', 'detail': 'the answer of the wrapped application arrived as status %r body %r' % (status, body)}
         return {'who': 'wrapped'}
     if eng_hits and wrapped_hits:
         return {'who': 'malformed', 'detail': 'both engine and wrapped app called'}
